@@ -2184,6 +2184,9 @@ func (h *hCtx) realTxs() {
 		// in-process, the handler alone (on a branch): accepted?
 		bctx, _ := fctx.CacheContext()
 		inproc := hx.Try(func() error { return k.ConfirmHandler(bctx, m6) })
+		if strings.HasPrefix(inproc, "err:") {
+			inproc = errKind(fmt.Errorf("%s", inproc[4:]))
+		}
 		h.out.Count("tx:noncanonical-external:handler-alone=" + inproc)
 		code, _ := deliver(bridgerZ, m6)
 		h.out.Count(fmt.Sprintf("tx:noncanonical-external:code=%d", code))
@@ -2323,6 +2326,7 @@ func TestC12(t *testing.T) {
 		}
 		// systematic: one discarded branch on the chain of this sequence's turn
 		h.discardedBranch(chains[q%len(chains)])
+		h.aliasPair(chains[(q+1)%len(chains)])
 		for _, c := range chains {
 			h.verifyAll(c)
 		}
